@@ -122,16 +122,7 @@ func (o *tiInput) ExpectedFaults() []string { return faultKinds }
 func pickProgram(c *Ctx, r *Rng, ties bool) ([]byte, string) {
 	switch k := r.Intn(20); {
 	case k >= 17 && r.Chance(1, 2):
-		switch r.Intn(4) {
-		case 0:
-			return hierarchyProgram(r), "hierarchy"
-		case 1:
-			return bigLiteralProgram(r), "big-literals"
-		case 2:
-			return aliasChainProgram(r), "alias-chains"
-		default:
-			return cyclicProgram(r), "cyclic"
-		}
+		return shapedProgram(r)
 	case k < 1:
 		// a long file: several corpus programs back to back (size-dependent behaviour)
 		var b []byte
@@ -155,6 +146,20 @@ func pickProgram(c *Ctx, r *Rng, ties bool) ([]byte, string) {
 	}
 }
 
+// shapedProgram draws one of the generators for size- and shape-dependent behaviour.
+func shapedProgram(r *Rng) ([]byte, string) {
+	switch r.Intn(4) {
+	case 0:
+		return hierarchyProgram(r), "hierarchy"
+	case 1:
+		return bigLiteralProgram(r), "big-literals"
+	case 2:
+		return aliasChainProgram(r), "alias-chains"
+	default:
+		return cyclicProgram(r), "cyclic"
+	}
+}
+
 // hierarchyProgram builds deep and wide acyclic class / module hierarchies: chains, fans and
 // diamonds (every module of a level includes several modules of the level below), up to 30
 // levels, sometimes with names that collide with builtin frames and classes; then looks
@@ -174,6 +179,7 @@ func hierarchyProgram(r *Rng) []byte {
 		return fmt.Sprintf("H%d%c", l, 'a'+w)
 	}
 	useClass := r.Chance(1, 3)
+	full := r.Chance(1, 2) // every module includes every module of the level below
 	for l := 0; l < levels; l++ {
 		for w := 0; w < width; w++ {
 			kind := "module"
@@ -190,25 +196,33 @@ func hierarchyProgram(r *Rng) []byte {
 					if kind == "class" && p == 0 {
 						continue
 					}
-					if r.Chance(3, 4) {
+					if full {
+						sb.WriteString("  include " + name(l-1, p) + "\n")
+					} else if r.Chance(3, 4) {
 						sb.WriteString("  " + r.Pick([]string{"include", "include", "extend"}) + " " + name(l-1, p) + "\n")
 					}
 				}
 			}
-			switch r.Intn(5) {
+			switch r.Intn(6) {
 			case 0:
 				fmt.Fprintf(&sb, "  def m%d\n    @v%d = %d\n    v = @v%d\n    v\n  end\n", l, l, l, l)
 			case 1:
 				fmt.Fprintf(&sb, "  K%d = %d\n", l, l)
 			case 2:
 				fmt.Fprintf(&sb, "  def self.s%d(x)\n    x\n  end\n", l)
+			case 3:
+				// visibility sections: lookups that have to decide who may call what
+				fmt.Fprintf(&sb, "  %s\n  def v%d\n    %d\n  end\n", r.Pick([]string{"protected", "private", "public"}), l, l)
 			}
 			sb.WriteString("end\n")
 		}
 	}
 	top := name(levels-1, 0)
-	fmt.Fprintf(&sb, "class Leaf\n  include %s\n  def go\n    q = 1\n    @w = q\n    m0\n    m%d\n    missing_one\n  end\nend\n", top, levels-1)
-	fmt.Fprintf(&sb, "x = Leaf.new\nx.go\nx.m%d\nLeaf::K0\nx.nope(1)\n", r.Intn(levels))
+	// an unrelated class with protected / private methods, called from inside and outside
+	// the hierarchy (the visibility check asks whether the caller descends from the owner)
+	sb.WriteString("class Other\n  def pub\n    1\n  end\n  protected\n  def secret\n    2\n  end\n  private\n  def hidden\n    3\n  end\nend\n")
+	fmt.Fprintf(&sb, "class Leaf\n  include %s\n  def go\n    q = 1\n    @w = q\n    m0\n    m%d\n    missing_one\n    o = Other.new\n    o.%s\n    v%d\n  end\nend\n", top, levels-1, r.Pick([]string{"secret", "hidden", "pub", "secret"}), r.Intn(levels))
+	fmt.Fprintf(&sb, "x = Leaf.new\nx.go\nx.m%d\nLeaf::K0\nx.nope(1)\nx.v%d\nOther.new.secret\n", r.Intn(levels), r.Intn(levels))
 	return []byte(sb.String())
 }
 
@@ -391,10 +405,12 @@ func (o *tiInput) Make(c *Ctx, i int) *Case {
 			fk = "F3-badutf8"
 		case k < 84:
 			fk = "F4-zerofill"
-		case k < 92:
+		case k < 90:
 			fk = "F5-halfoverwrite"
-		default:
+		case k < 95:
 			fk = "F6-flip"
+		default:
+			fk = "F7-crlf"
 		}
 		if (origin == "cyclic" || origin == "hierarchy" || origin == "alias-chains" || origin == "big-literals") && r.Chance(2, 3) {
 			fk = ""
@@ -779,7 +795,48 @@ func (o *tiSession) Make(c *Ctx, i int) *Case {
 	}
 	cs.Kind = "session"
 	r := Stream(c.Seed, "C04", i, "case")
+	if r.Chance(1, 10) {
+		// a finished file with documented user methods; the queries visit the rows of the
+		// calls (instance, class-level, namespaced, inherited receivers; incomplete calls)
+		src, rows := userProbe(r)
+		cs.Meta["origin"] = "user-probe"
+		for k, row := range rows {
+			if r.Chance(1, 3) {
+				row += r.Range(-1, 1)
+			}
+			rc := rowClass(src, row)
+			st := Step{Node: "ti", Argv: []string{target, queryModes[r.Intn(3)], fmt.Sprintf("--row=%d", row)}, Seed: r.U64(), Sched: "seeded", Note: rc + "|whole:user-probe"}
+			if k == 0 {
+				st.Files = map[string][]byte{target: src}
+			}
+			cs.Steps = append(cs.Steps, st)
+		}
+		return cs
+	}
 	src, origin := pickProgram(c, r, false)
+	if r.Chance(1, 10) {
+		// a finished file of one of the size- and shape-dependent kinds (deep and diamond
+		// hierarchies, cycles, big literals, identifier chains): the queries walk class
+		// hierarchies of their own — completion asks, for every known signature, whether its
+		// class is an ancestor of the receiver's — so they are asked on the rows that use the
+		// shape (the last lines) and on a few others
+		src, origin = shapedProgram(r)
+		cs.Meta["origin"] = origin
+		lines := bytes.Count(src, []byte("\n"))
+		for k := 0; k < r.Range(4, 9); k++ {
+			row := lines - r.Intn(min(lines, 12))
+			if r.Chance(1, 4) {
+				row = 1 + r.Intn(lines+1)
+			}
+			rc := rowClass(src, row)
+			st := Step{Node: "ti", Argv: []string{target, queryModes[r.Intn(3)], fmt.Sprintf("--row=%d", row)}, Seed: r.U64(), Sched: "seeded", Note: rc + "|whole:" + origin}
+			if k == 0 {
+				st.Files = map[string][]byte{target: src}
+			}
+			cs.Steps = append(cs.Steps, st)
+		}
+		return cs
+	}
 	cs.Meta["origin"] = origin
 	if len(src) == 0 {
 		src = []byte("x = 1\n")
@@ -787,6 +844,10 @@ func (o *tiSession) Make(c *Ctx, i int) *Case {
 	toks := Scan(src)
 	nsteps := r.Range(6, 16)
 	off := r.Intn(len(src)/2 + 1)
+	if r.Chance(1, 4) {
+		// the user is editing the end of an existing file
+		off = len(src) - r.Intn(min(len(src), 300)+1)
+	}
 	var rows []int
 	for s := 0; s < nsteps; s++ {
 		// the editor types ...
